@@ -323,19 +323,37 @@ def gen_terms(interp, g):
 
 
 def search_first(interp, lo, hi, cond_at, label="search"):
-    """index m of the first k in [lo,hi) with cond_at(k), or None (forks)"""
+    """index m of the first k in [lo,hi) with cond_at(k), or None (forks).  The same search (same bounds, same test) under
+    the same path yields the same index constant: 'the first such index' is a function of the test."""
     ctx = interp.ctx
-    j = z3.Const(f"sj!{ctx.uid()}", I)
+    j = z3.Const("sj!canon", I)
     with Pure(ctx):
         cj = zbool(cond_at(j))
+    key = (str(zint(lo)), str(zint(hi)), cj.sexpr())
+    cache = ctx.__dict__.setdefault("search_cache", {})
+    if key in cache:
+        kind, m = cache[key]
+        if kind == "found":
+            return m
+        return None
     none = z3.ForAll([j], z3.Implies(zbool(rng(lo, j, hi)), z3.Not(cj)))
-    if ctx.branch(z3.Not(none), label + ".found"):
+    # cheap witnesses: if the test provably holds at the last (or first) index the search cannot fail
+    certain = False
+    for w in (z3.simplify(zint(hi) - 1), zint(lo)):
+        with Pure(ctx):
+            cw = zbool(cond_at(w))
+        if ctx.entails(And(rng(lo, w, hi), cw)):
+            certain = True
+            break
+    if certain or ctx.branch(z3.Not(none), label + ".found"):
         m = ctx.fresh_int("first")
         with Pure(ctx):
             cm = zbool(cond_at(m))
         ctx.assume(And(rng(lo, m, hi), cm))
         ctx.assume(z3.ForAll([j], z3.Implies(zbool(And(zint(lo) <= j, j < m)), z3.Not(cj))))
+        cache[key] = ("found", m)
         return m
+    cache[key] = ("none", None)
     return None
 
 
